@@ -153,6 +153,7 @@ func init() {
 		ID:    "C22",
 		Level: "fault_enumeration",
 		Rule: "seeded cluster runs (7-9 real nodes, deposits+transfers, swarm network faults) in which 2-6 crashes per run cut a node before/after its k-th upcoming mutating Store call (k in 1..25, covers WriteTransaction, Lock*, StartNewRound, UpdateEmptyHeadRound, WriteSnapshot, WriteConsensusSnapshot, cache writes, work/space writes) or at a step boundary with cache-DB loss; each restart is checked by the graph validator over all rounds and a full ledger scan; " +
+			"40% of the in-call crashes stop right before the k-th upcoming Badger commit (k in 1..40) instead of at a call boundary; 30% of the runs are membership-rig histories (pledge, acceptance, removal, custodian update, mint) with a node armed to stop before its k-th commit (k in 1..14) right before each operation; " +
 			"non-trivial = at least one checked restart and one transaction finalized everywhere afterwards; distinct = canonical-log digests. Sampled, not exhaustive, per history.",
 		Components: clusterComponents,
 		Assume:     clusterAssume,
